@@ -168,6 +168,8 @@ static void run_one(int newest) {
   if (!bag_n) return;
   void* t = bag_take(newest);
   int kind = task_kind_of(t);
+  /* (kind = the typed pool the task lives in = alloc_kind_hint at its creation; a wrong hint cannot go unnoticed: a forward task in the
+     body pool trips "finished without invoking the body", a body task in the forward pool trips the concurrency accounting) */
   in_task = 1; in_arena = WIN; task_body_pending = (kind == 0 && !cancelled);
   u8* b = vp_run_task((struct S_class_tbb__detail__d1__task*)t, cancelled);
   VP_ASSERT(!task_body_pending, "a body task finished without invoking the body");
@@ -197,16 +199,13 @@ static void run(unsigned accpat, unsigned flippat) {
   outc = (unsigned)vp_nd(); __CPROVER_assume(outc != 0);
   vp_init(CONC, NSUCC);
   vp_refv_init(0); vp_refv_init(1);
-#ifdef LW
-  VP_ASSERT(vp_is_nothrow() == (LW != 0), "harness configuration: lightweight path expectation");
-#endif
   for (int s = 0; s < NOPS; s++) {
     int op = ops[s];
     if (op == 1) do_put();
     else if (op == 2) run_one(0);
     else if (op == 3) run_one(1);
     else if (op == 8) run_one(vp_nd_bool());
-    else if (op == 4) { pred_added = 1; vp_add_pred(); }
+    else if (op == 4) { pred_added = 1; alloc_kind_hint = 1; vp_add_pred(); alloc_kind_hint = 0; }   /* reg_pred is the only operation that creates a forward task */
     else if (op == 5) cancelled = 1;
     else if (op == 6) { vp_reserve_wait(); nreserved++; }
     else if (op == 7) { if (nreserved) { vp_release_wait(); nreserved--; } }
